@@ -5,15 +5,17 @@
    MaxDepth wrappings and checks in each one, for all 2^NLeaves valuations:
      InvDNF / InvCNF : the intended expansions RefDNF / RefCNF mean what the tree means
      InvFull         : the complete signed-leaf expansion (and that of the complement) too
+                       (trees of depth <= FullDepth: it is the expensive one)
      InvNegFlag      : a node's negate flag is the same as a Negate wrapper
      InvCounting     : at-most-one = none or exactly-one; exactly-one implies any-of        *)
 EXTENDS BoolTree, TLC
-CONSTANTS NLeaves, MaxDepth, RichSiblings
+CONSTANTS NLeaves, MaxDepth, RichSiblings, FullDepth
 VARIABLE t
 
 Ids == 1..NLeaves
 PlainLeaves == {Leaf(i, FALSE) : i \in Ids}
-Siblings == IF RichSiblings
+Siblings == IF ~RichSiblings /\ Depth(t) >= 1 THEN {}   \* basic: above level 1 only solo wrappings
+            ELSE IF RichSiblings
             THEN PlainLeaves \cup {Leaf(i, TRUE) : i \in Ids} \cup {Not(x) : x \in PlainLeaves}
                  \cup {Node(kd, n, <<Leaf(1, FALSE), Leaf(2, FALSE)>>) : kd \in Kinds, n \in BOOLEAN}
             ELSE PlainLeaves \cup {Not(Leaf(1, FALSE)), Node("or", TRUE, <<Leaf(1, FALSE), Leaf(2, FALSE)>>)}
@@ -31,7 +33,7 @@ Vals == SUBSET Ids
 InvWellFormed == WellFormed(t) /\ LeafIds(t) \subseteq Ids
 InvDNF  == \A v \in Vals : EvalDNF(RefDNF(t), v) = Eval(t, v)
 InvCNF  == \A v \in Vals : EvalCNF(RefCNF(t), v) = Eval(t, v)
-InvFull == \A v \in Vals : /\ EvalLits(FullDNF(t, TRUE), v) = Eval(t, v)
+InvFull == Depth(t) <= FullDepth => \A v \in Vals : /\ EvalLits(FullDNF(t, TRUE), v) = Eval(t, v)
                            /\ EvalLits(FullDNF(t, FALSE), v) = ~Eval(t, v)
 InvNegFlag == t.k \in Kinds => \A v \in Vals : Eval([t EXCEPT !.neg = ~@], v) = Eval(Not(t), v)
 InvCounting == t.k \in Kinds =>
